@@ -20,7 +20,7 @@ from decimal import Decimal
 
 sys.path.insert(0, os.path.dirname(os.path.abspath(__file__)))
 import refchk  # noqa: E402
-from common import REPO, Outcome, Rng, err_class, hx, load_spec, run_driver  # noqa: E402
+from common import REPO, Outcome, Rng, err_class, hx, load_spec, run_driver, shared_io  # noqa: E402
 from mapgen import MapGen, PRINTABLE  # noqa: E402
 
 logging.disable(logging.CRITICAL)
@@ -266,7 +266,7 @@ def real_run(data, history, classes):
     real = Real(classes)
     authored = []
     try:
-        rich = RichChkIo().decode_chk(ChkIo().decode_chk_binary_data(data))
+        rich = shared_io()[1].decode_chk(shared_io()[0].decode_chk_binary_data(data))
         for ed in history:
             if ed["op"] == "addtrigs":
                 trig = find_section(rich, RichTrigSection)
@@ -295,8 +295,8 @@ def real_run(data, history, classes):
 
                 rich = RichChkEditor().replace_chk_section(RichMrgnSection(_locations=[real.val(l, None) for l in ed["locs"]]), rich)
             elif ed["op"] == "reload":
-                rich = RichChkIo().decode_chk(ChkIo().decode_chk_binary_data(ChkIo().encode_chk_to_bytes(RichChkIo().encode_chk(rich))))
-        out = ChkIo().encode_chk_to_bytes(RichChkIo().encode_chk(rich))
+                rich = shared_io()[1].decode_chk(shared_io()[0].decode_chk_binary_data(shared_io()[0].encode_chk_to_bytes(shared_io()[1].encode_chk(rich))))
+        out = shared_io()[0].encode_chk_to_bytes(shared_io()[1].encode_chk(rich))
     except Exception as ex:  # noqa: BLE001
         return None, err_class(ex), authored
     return out, None, authored
@@ -1205,7 +1205,7 @@ def reload_equal(sc, res, authored, out, base_info):
     from richchk.model.richchk.trig.rich_trig_section import RichTrigSection
 
     try:
-        rich = RichChkIo().decode_chk(ChkIo().decode_chk_binary_data(res))
+        rich = shared_io()[1].decode_chk(shared_io()[0].decode_chk_binary_data(res))
     except Exception as ex:  # noqa: BLE001
         out.violations.append(dict(base_info, oracle="the saved map loads again", key=None, got=err_class(ex)))
         return
